@@ -225,6 +225,14 @@ class RefEvaluator:
             return _apply(getattr, a, e.name)
         elif t == "CommonSubexpression" or isinstance(e, p.CommonSubexpression):
             return self.ev(e.child)
+        elif t == "Slice":
+            ch = e.children
+            parts = self.strict([c for c in ch if c is not None])
+            it = iter(parts)
+            vals = [None if c is None else next(it) for c in ch]
+            if len(vals) == 1:
+                vals = [None, vals[0]]      # a lone part is the stop, as in slice(stop)
+            return slice(*vals) if vals else slice(None)
         elif t == "NaN":
             if e.data_type is None:
                 return float("nan")
